@@ -3,35 +3,26 @@ import SLModel.Core.DocValidateLegacy
 /-!
 # C15 — every accepted document can be committed
 
-Model: `Core/DocValidate` (`validateAdd` = `Schema::validate_document` as called by
-`IndexWriter::add_document`; `collectOk` = what `write_segment_stream` needs for one document),
-the code after the repairs 37df93e / 919e2f9 / 6d0f8bf.  Tie to the code: `Drv/C15` runs the
-same definitions; the harness compares them with the real `add_document` / `commit` results on
-mutated documents.
+Model: `Core/DocValidate` — the code after the repairs 37df93e / 919e2f9 / 6d0f8bf (add-time
+validation as strict as collection) and 8c4f4e4 (`ensure_storable`: the stored projection is
+checked against the docstore cap when the document is queued).  `validateDoc` =
+`Schema::validate_document`, `validateAdd` = `IndexWriter::add_document` accepts, `collectOk` =
+what `write_segment_stream` needs for one document.  Tie to the code: `Drv/C15` runs the same
+definitions; the harness compares them with the real `add_document` / `commit` results.
 
-The full statement
+The property now holds in full:
 
-    theorem accepted_commits (h : validateAdd blank s d = true) :
-        collectOk blank size cap s d = true
-
-is still **false**: `accepted_commits_false_docstore_cap` (the stored projection may exceed the
-docstore cap, which nothing checks at add time; `corpus/C15/stored-doc-over-docstore-cap.json`).
-What is proved:
-
-* `accepted_collects` — an accepted document passes everything `collect_document` checks, for
-  every schema and JSON document, without any side condition;
-* `accepted_commits_partial` — the statement under the one remaining hypothesis "stored projection
-  within the cap";
-* `accepted_conforms` / `accepted_iff_conforms` — add-time validation accepts exactly the
-  documents that obey the schema as documented (the three exceptions of the earlier
-  `accepted_conforms_partial` are gone);
-* `violations_rejected_*`, `nestedValid_*` — the documented classes of violations are rejected when
-  the document is queued, now including unknown top-level names, arrays inside nested arrays and
-  ill-typed nested leaf values;
-* `conforms_accepted`, `conforms_commits`;
-* `legacy_*` — kernel-checked witnesses that the validation BEFORE the repairs
-  (`Core/DocValidateLegacy`) accepted documents that could not be committed / violated the schema,
-  and that the repaired validation rejects exactly these witnesses.
+* `accepted_commits` — `validateAdd = true → collectOk = true`, for every schema, JSON document,
+  size function and cap (`accepted_iff_commits`: add time accepts exactly what commit needs);
+* `accepted_conforms` / `accepted_iff_conforms` — add time accepts exactly the documents that obey
+  the schema as documented and whose stored form fits the cap;
+* `violations_rejected_*`, `nestedValid_*`, `rejected_of_invalid`, `violations_rejected_oversize` —
+  the documented classes of violations are rejected when the document is queued;
+* `validated_collects` — `validate_document` alone already implies every content check of
+  `collect_document` (so `ensure_storable` can only fail on the size);
+* `legacy_*` — kernel-checked witnesses of the four original defects (validation before the
+  repairs accepted documents that could not be committed / violated the schema) and of their
+  rejection by the repaired code.
 -/
 set_option linter.unusedSectionVars false
 set_option linter.unusedSimpArgs false
@@ -111,59 +102,59 @@ theorem requiredPresent_mem {kv : JO σ} : ∀ {props : NProps σ} {p : NProp σ
 
 /-- not a JSON object -/
 theorem violations_rejected_not_object (blank : σ → Bool) (s : Schema σ) (d : J σ)
-    (h : ∀ kv, d ≠ .obj kv) : validateAdd blank s d = false := by
+    (h : ∀ kv, d ≠ .obj kv) : validateDoc blank s d = false := by
   cases d with
   | obj kv => exact absurd rfl (h kv)
   | _ => rfl
 
 /-- missing id -/
 theorem violations_rejected_missing_id (blank : σ → Bool) (s : Schema σ) (kv : JO σ)
-    (h : kv.get s.idField = none) : validateAdd blank s (.obj kv) = false := by
-  simp [validateAdd, idOk, h]
+    (h : kv.get s.idField = none) : validateDoc blank s (.obj kv) = false := by
+  simp [validateDoc, idOk, h]
 
 /-- blank id -/
 theorem violations_rejected_blank_id (blank : σ → Bool) (s : Schema σ) (kv : JO σ) (x : σ)
     (h : kv.get s.idField = some (.str x)) (hb : blank x = true) :
-    validateAdd blank s (.obj kv) = false := by
-  simp [validateAdd, idOk, h, hb]
+    validateDoc blank s (.obj kv) = false := by
+  simp [validateDoc, idOk, h, hb]
 
 /-- id that is not a string -/
 theorem violations_rejected_id_not_string (blank : σ → Bool) (s : Schema σ) (kv : JO σ) (v : J σ)
     (h : kv.get s.idField = some v) (hs : v.isStr = false) :
-    validateAdd blank s (.obj kv) = false := by
-  cases v <;> simp_all [validateAdd, idOk, J.isStr]
+    validateDoc blank s (.obj kv) = false := by
+  cases v <;> simp_all [validateDoc, idOk, J.isStr]
 
 /-- wrong value type (or null where not nullable) in a top-level field -/
 theorem violations_rejected_flat_type (blank : σ → Bool) (s : Schema σ) (kv : JO σ) (k : σ)
     (v : J σ) (l : Leaf σ) (hm : (k, v) ∈ kv.toList) (hn : s.findNested k = none)
     (hf : s.findFlat k = some l) (hbad : flatOk l v = false) :
-    validateAdd blank s (.obj kv) = false := by
-  cases hv : validateAdd blank s (.obj kv) with
+    validateDoc blank s (.obj kv) = false := by
+  cases hv : validateDoc blank s (.obj kv) with
   | false => rfl
   | true =>
-    simp only [validateAdd, Bool.and_eq_true] at hv
+    simp only [validateDoc, Bool.and_eq_true] at hv
     have := fieldsValid_mem hv.2 hm
     simp [hn, hf, hbad] at this
 
 /-- any violation inside the value of a nested field -/
 theorem violations_rejected_nested (blank : σ → Bool) (s : Schema σ) (kv : JO σ) (k : σ)
     (v : J σ) (n : Nested σ) (hm : (k, v) ∈ kv.toList) (hn : s.findNested k = some n)
-    (hbad : nestedValid n v = false) : validateAdd blank s (.obj kv) = false := by
-  cases hv : validateAdd blank s (.obj kv) with
+    (hbad : nestedValid n v = false) : validateDoc blank s (.obj kv) = false := by
+  cases hv : validateDoc blank s (.obj kv) with
   | false => rfl
   | true =>
-    simp only [validateAdd, Bool.and_eq_true] at hv
+    simp only [validateDoc, Bool.and_eq_true] at hv
     have := fieldsValid_mem hv.2 hm
     simp [hn, hbad] at this
 
 /-- a top-level name that is neither a nested field, nor a flat field, nor the id field -/
 theorem violations_rejected_unknown_field (blank : σ → Bool) (s : Schema σ) (kv : JO σ) (k : σ)
     (v : J σ) (hm : (k, v) ∈ kv.toList) (hn : s.findNested k = none) (hf : s.findFlat k = none)
-    (hid : k ≠ s.idField) : validateAdd blank s (.obj kv) = false := by
-  cases hv : validateAdd blank s (.obj kv) with
+    (hid : k ≠ s.idField) : validateDoc blank s (.obj kv) = false := by
+  cases hv : validateDoc blank s (.obj kv) with
   | false => rfl
   | true =>
-    simp only [validateAdd, Bool.and_eq_true] at hv
+    simp only [validateDoc, Bool.and_eq_true] at hv
     have := fieldsValid_mem hv.2 hm
     simp [hn, hf, hid] at this
 
@@ -347,30 +338,30 @@ theorem collectFields_of_valid (s : Schema σ) : ∀ (kv : JO σ),
 `collect_document` / `collect_nested` / `collect_nested_object` — for every schema and every JSON
 document.  (Before the repairs this needed "no unknown top-level name, no array in a nested
 array".) -/
-theorem accepted_collects (blank : σ → Bool) (s : Schema σ) (d : J σ)
-    (h : validateAdd blank s d = true) : collectDoc s d = true := by
+theorem validated_collects (blank : σ → Bool) (s : Schema σ) (d : J σ)
+    (h : validateDoc blank s d = true) : collectDoc s d = true := by
   cases d with
   | obj kv =>
-    simp only [validateAdd, Bool.and_eq_true] at h
+    simp only [validateDoc, Bool.and_eq_true] at h
     exact collectFields_of_valid s kv h.2
-  | null => simp [validateAdd] at h
-  | bool b => simp [validateAdd] at h
-  | num m e => simp [validateAdd] at h
-  | str x => simp [validateAdd] at h
-  | arr a => simp [validateAdd] at h
+  | null => simp [validateDoc] at h
+  | bool b => simp [validateDoc] at h
+  | num m e => simp [validateDoc] at h
+  | str x => simp [validateDoc] at h
+  | arr a => simp [validateDoc] at h
 
 /-- **C15, proved part**: an accepted document passes everything `commit` needs, provided its
 stored projection fits the docstore cap (the one condition add time still does not check). -/
-theorem accepted_commits_partial (blank : σ → Bool) (size : J σ → Nat) (cap : Nat)
-    (s : Schema σ) (d : J σ) (h : validateAdd blank s d = true)
+theorem validated_commits_partial (blank : σ → Bool) (size : J σ → Nat) (cap : Nat)
+    (s : Schema σ) (d : J σ) (h : validateDoc blank s d = true)
     (hsz : size (project s d) ≤ cap) : collectOk blank size cap s d = true := by
-  simp [collectOk, h, accepted_collects blank s d h, hsz]
+  simp [collectOk, h, validated_collects blank s d h, hsz]
 
 /-- the cap is the only way an accepted document can fail to commit -/
-theorem accepted_commit_fails_iff (blank : σ → Bool) (size : J σ → Nat) (cap : Nat)
-    (s : Schema σ) (d : J σ) (h : validateAdd blank s d = true) :
+theorem validated_commit_fails_iff (blank : σ → Bool) (size : J σ → Nat) (cap : Nat)
+    (s : Schema σ) (d : J σ) (h : validateDoc blank s d = true) :
     collectOk blank size cap s d = false ↔ cap < size (project s d) := by
-  simp [collectOk, h, accepted_collects blank s d h, Nat.not_le]
+  simp [collectOk, h, validated_collects blank s d h, Nat.not_le]
 
 /-! ## accepted ⇔ conforming -/
 
@@ -539,27 +530,27 @@ theorem fieldsStrict_of_valid (s : Schema σ) : ∀ (kv : JO σ),
 
 /-- **every accepted document obeys the schema as documented** — for every schema and JSON
 document, no exceptions left (was `accepted_conforms_partial` with three excluded classes) -/
-theorem accepted_conforms (blank : σ → Bool) (s : Schema σ) (d : J σ)
-    (h : validateAdd blank s d = true) : conforms blank s d = true := by
+theorem validated_conforms (blank : σ → Bool) (s : Schema σ) (d : J σ)
+    (h : validateDoc blank s d = true) : conforms blank s d = true := by
   cases d with
   | obj kv =>
-    simp only [validateAdd, Bool.and_eq_true] at h
+    simp only [validateDoc, Bool.and_eq_true] at h
     simp only [conforms, Bool.and_eq_true]
     exact ⟨h.1, fieldsStrict_of_valid s kv h.2⟩
-  | null => simp [validateAdd] at h
-  | bool b => simp [validateAdd] at h
-  | num m e => simp [validateAdd] at h
-  | str x => simp [validateAdd] at h
-  | arr a => simp [validateAdd] at h
+  | null => simp [validateDoc] at h
+  | bool b => simp [validateDoc] at h
+  | num m e => simp [validateDoc] at h
+  | str x => simp [validateDoc] at h
+  | arr a => simp [validateDoc] at h
 
 /-- a document that obeys the schema as documented is accepted by `add_document` … -/
-theorem conforms_accepted (blank : σ → Bool) (s : Schema σ) (d : J σ)
+theorem conforms_validated (blank : σ → Bool) (s : Schema σ) (d : J σ)
     (hid : idNotNested s = true) (h : conforms blank s d = true) :
-    validateAdd blank s d = true := by
+    validateDoc blank s d = true := by
   cases d with
   | obj kv =>
     simp only [conforms, Bool.and_eq_true] at h
-    simp only [validateAdd, Bool.and_eq_true]
+    simp only [validateDoc, Bool.and_eq_true]
     exact ⟨h.1, fieldsValid_of_strict s hid kv h.2⟩
   | null => simp [conforms] at h
   | bool b => simp [conforms] at h
@@ -568,20 +559,80 @@ theorem conforms_accepted (blank : σ → Bool) (s : Schema σ) (d : J σ)
   | arr a => simp [conforms] at h
 
 /-- add-time validation accepts exactly the conforming documents -/
-theorem accepted_iff_conforms (blank : σ → Bool) (s : Schema σ) (d : J σ)
-    (hid : idNotNested s = true) : validateAdd blank s d = conforms blank s d := by
+theorem validated_iff_conforms (blank : σ → Bool) (s : Schema σ) (d : J σ)
+    (hid : idNotNested s = true) : validateDoc blank s d = conforms blank s d := by
   cases hc : conforms blank s d with
-  | true => exact conforms_accepted blank s d hid hc
+  | true => exact conforms_validated blank s d hid hc
   | false =>
-    cases hv : validateAdd blank s d with
+    cases hv : validateDoc blank s d with
     | false => rfl
-    | true => rw [accepted_conforms blank s d hv] at hc; exact absurd hc (by simp)
+    | true => rw [validated_conforms blank s d hv] at hc; exact absurd hc (by simp)
 
 /-- … and can be committed (if its stored form fits the docstore cap) -/
+theorem conforms_commits_of_size (blank : σ → Bool) (size : J σ → Nat) (cap : Nat) (s : Schema σ)
+    (d : J σ) (hid : idNotNested s = true) (h : conforms blank s d = true)
+    (hsz : size (project s d) ≤ cap) : collectOk blank size cap s d = true :=
+  validated_commits_partial blank size cap s d (conforms_validated blank s d hid h) hsz
+
+/-! ## `add_document` (validate_document + ensure_storable) -/
+
+/-- whatever `validate_document` refuses, `add_document` refuses -/
+theorem rejected_of_invalid (blank : σ → Bool) (size : J σ → Nat) (cap : Nat) (s : Schema σ)
+    (d : J σ) (h : validateDoc blank s d = false) : validateAdd blank size cap s d = false := by
+  simp [validateAdd, h]
+
+/-- a document whose stored form exceeds the docstore cap is refused when it is queued -/
+theorem violations_rejected_oversize (blank : σ → Bool) (size : J σ → Nat) (cap : Nat)
+    (s : Schema σ) (d : J σ) (h : cap < size (project s d)) :
+    validateAdd blank size cap s d = false := by
+  simp [validateAdd, storable, Nat.not_le.mpr h]
+
+/-- **C15, full statement**: every document accepted by `add_document` passes everything `commit`
+needs — content checks and the docstore cap — for every schema, document, size function and cap -/
+theorem accepted_commits (blank : σ → Bool) (size : J σ → Nat) (cap : Nat) (s : Schema σ)
+    (d : J σ) (h : validateAdd blank size cap s d = true) :
+    collectOk blank size cap s d = true := by
+  simp only [validateAdd, storable, Bool.and_eq_true] at h
+  simp [collectOk, h.1, h.2.1, h.2.2]
+
+/-- add time accepts exactly what commit needs -/
+theorem accepted_iff_commits (blank : σ → Bool) (size : J σ → Nat) (cap : Nat) (s : Schema σ)
+    (d : J σ) : validateAdd blank size cap s d = collectOk blank size cap s d := by
+  simp [validateAdd, storable, collectOk, Bool.and_assoc]
+
+/-- `ensure_storable` can only fail on the size: the content checks of `collect_document` are
+implied by `validate_document` -/
+theorem accepted_iff_valid_and_fits (blank : σ → Bool) (size : J σ → Nat) (cap : Nat)
+    (s : Schema σ) (d : J σ) :
+    validateAdd blank size cap s d = (validateDoc blank s d && decide (size (project s d) ≤ cap)) := by
+  cases hv : validateDoc blank s d with
+  | false => simp [validateAdd, hv]
+  | true => simp [validateAdd, storable, hv, validated_collects blank s d hv]
+
+/-- every accepted document obeys the schema as documented -/
+theorem accepted_conforms (blank : σ → Bool) (size : J σ → Nat) (cap : Nat) (s : Schema σ)
+    (d : J σ) (h : validateAdd blank size cap s d = true) : conforms blank s d = true := by
+  simp only [validateAdd, Bool.and_eq_true] at h
+  exact validated_conforms blank s d h.1
+
+/-- a conforming document whose stored form fits the cap is accepted -/
+theorem conforms_accepted (blank : σ → Bool) (size : J σ → Nat) (cap : Nat) (s : Schema σ)
+    (d : J σ) (hid : idNotNested s = true) (h : conforms blank s d = true)
+    (hsz : size (project s d) ≤ cap) : validateAdd blank size cap s d = true := by
+  rw [accepted_iff_valid_and_fits]
+  simp [conforms_validated blank s d hid h, hsz]
+
+/-- add time accepts exactly the conforming documents that fit the cap -/
+theorem accepted_iff_conforms (blank : σ → Bool) (size : J σ → Nat) (cap : Nat) (s : Schema σ)
+    (d : J σ) (hid : idNotNested s = true) :
+    validateAdd blank size cap s d = (conforms blank s d && decide (size (project s d) ≤ cap)) := by
+  rw [accepted_iff_valid_and_fits, validated_iff_conforms blank s d hid]
+
+/-- … and such a document can be committed -/
 theorem conforms_commits (blank : σ → Bool) (size : J σ → Nat) (cap : Nat) (s : Schema σ)
     (d : J σ) (hid : idNotNested s = true) (h : conforms blank s d = true)
     (hsz : size (project s d) ≤ cap) : collectOk blank size cap s d = true :=
-  accepted_commits_partial blank size cap s d (conforms_accepted blank s d hid h) hsz
+  accepted_commits blank size cap s d (conforms_accepted blank size cap s d hid h hsz)
 
 /-! ## witnesses (atoms are `Nat`; `0` = id field) -/
 
@@ -608,24 +659,27 @@ def wLeafArr : J Nat :=
   .obj (.cons 0 (.str 7) (.cons 2 (.obj (.cons 3 (.arr (.cons (.num 1 0) (.cons (.num 2 0) .nil)))
     .nil)) .nil))
 
-/-- the full statement still fails: stored projection above the docstore cap -/
-theorem accepted_commits_false_docstore_cap :
-    validateAdd (fun _ => false) wSchema wPlain = true ∧
-    collectOk (fun _ => false) (fun _ => 5) 4 wSchema wPlain = false := by decide
+/-- before 8c4f4e4: `add_document` was `validate_document` alone — a document whose stored
+projection exceeds the cap was accepted and could not be committed; the repaired `add_document`
+rejects it -/
+theorem legacy_accepted_commits_false_docstore_cap :
+    validateDoc (fun _ => false) wSchema wPlain = true ∧
+    collectOk (fun _ => false) (fun _ => 5) 4 wSchema wPlain = false ∧
+    validateAdd (fun _ => false) (fun _ => 5) 4 wSchema wPlain = false := by decide
 
 /-- before 37df93e: an unknown top-level field was accepted and could not be committed; the
 repaired validation rejects it -/
 theorem legacy_accepted_commits_false_unknown_field :
     Legacy.validateAdd (fun _ => false) wSchema wUnknown = true ∧
     Legacy.collectOk (fun _ => false) (fun _ => 0) 0 wSchema wUnknown = false ∧
-    validateAdd (fun _ => false) wSchema wUnknown = false := by decide
+    validateAdd (fun _ => false) (fun _ => 0) 0 wSchema wUnknown = false := by decide
 
 /-- before 919e2f9: an array directly inside a nested array was accepted and could not be
 committed; the repaired validation rejects it -/
 theorem legacy_accepted_commits_false_array_in_array :
     Legacy.validateAdd (fun _ => false) wSchema wArrArr = true ∧
     Legacy.collectOk (fun _ => false) (fun _ => 0) 0 wSchema wArrArr = false ∧
-    validateAdd (fun _ => false) wSchema wArrArr = false := by decide
+    validateAdd (fun _ => false) (fun _ => 0) 0 wSchema wArrArr = false := by decide
 
 /-- before 6d0f8bf: the elements of an array value of a nested leaf were not looked at (accepted,
 committed, values dropped); the repaired validation rejects the document -/
@@ -633,22 +687,22 @@ theorem legacy_nested_leaf_array_unchecked :
     Legacy.validateAdd (fun _ => false) wSchema wLeafArr = true ∧
     conforms (fun _ => false) wSchema wLeafArr = false ∧
     Legacy.collectOk (fun _ => false) (fun _ => 0) 0 wSchema wLeafArr = true ∧
-    validateAdd (fun _ => false) wSchema wLeafArr = false := by decide
+    validateAdd (fun _ => false) (fun _ => 0) 0 wSchema wLeafArr = false := by decide
 
 /-! ## non-vacuity -/
 
-example : validateAdd (fun _ => false) wSchema wPlain = true ∧
+example : validateAdd (fun _ => false) (fun _ => 0) 0 wSchema wPlain = true ∧
     collectOk (fun _ => false) (fun _ => 0) 0 wSchema wPlain = true := by decide
 
 example : conforms (fun _ => false) wSchema wPlain = true ∧ idNotNested wSchema = true := by decide
 
 /-- a conforming document with a nested array of two parents is accepted -/
-example : validateAdd (fun _ => false) wSchema
+example : validateAdd (fun _ => false) (fun _ => 0) 0 wSchema
     (.obj (.cons 0 (.str 7) (.cons 2 (.arr (.cons (.obj (.cons 3 (.str 5) .nil))
       (.cons (.obj .nil) .nil))) .nil))) = true := by decide
 
 /-- the rejection lemmas apply: a scalar inside a nested array -/
-example : validateAdd (fun _ => false) wSchema
+example : validateAdd (fun _ => false) (fun _ => 0) 0 wSchema
     (.obj (.cons 0 (.str 7) (.cons 2 (.arr (.cons (.str 4) .nil)) .nil))) = false := by decide
 
 end SL.Doc
